@@ -62,6 +62,7 @@ def plan(tier, seed):
     U = 6 if tier == "quick" else 8
     shards = [("sel", fm, U) for fm in range(1 << U)]
     shards += [("nonint", j, U) for j in range(U)]
+    shards += [("longsel", k) for k in range(4)]
     return dict(shards=shards, bounds=dict(universe=list(UNIVERSE[:U]), absent_pair=list(ABSENT)), budget_s=600)
 
 
@@ -102,6 +103,41 @@ def run_shard(shard, ctx):
                 ctx.evaluations += 1
                 ctx.hist["selected_%d" % len(keys)] += 1
                 e1.check_outcome(ctx, "selection", text, [exp], via, sel, "file tracks %r, selection %r" % (sorted(present), sel))
+    elif kind == "longsel":
+        # LONG selections (scale layer): a selection is a collection of pairs; its length, repeated entries and
+        # entries for tracks the file does not have never change which tracks are selected
+        U = 6
+        allpairs = [list(v) for v in TRACK_HEADERS.values()]
+        upairs = [list(TRACK_HEADERS[h]) for h in UNIVERSE[:U]]
+        for fm in ((1 << U) - 1, 0b101101, 0b000001, 0b010010)[shard[1] :: 4]:
+            present = {"%s/%s" % tuple(upairs[j]) for j in range(U) if fm >> j & 1}
+            for invalid in (False, True):
+                # an INVALID section that is never selected sits in the file as well
+                text = text_for(fm, U) + (section("ExpertKeyboard", INVALID[0]) if invalid else "")
+                if invalid:
+                    full = impl.model_outcome(text_for(fm, U), "file", None, (), "full")
+                else:
+                    full = impl.model_outcome(text, "file", None, (), "full")
+                notkeys = [p for p in allpairs if p != ["KEYS", "EXPERT"]]
+                sels = []
+                for sub in ([upairs[0]], upairs[:2], [upairs[0], list(ABSENT)], [list(ABSENT)], upairs[1:4]):
+                    for L in (39, 40, 41, 64, 200, 1000):
+                        sels.append((sub * L)[:L])
+                sels.append(notkeys)  # 39 distinct pairs
+                sels.append(notkeys + notkeys[:1])  # 39 distinct + one repeat = 40 entries
+                sels.append(notkeys + notkeys)
+                if not invalid:
+                    sels.append(allpairs)
+                    sels.append(allpairs + allpairs[:3])
+                for sel in sels:
+                    ctx.node()
+                    keys = {"%s/%s" % tuple(p) for p in sel} & present
+                    exp = ["ok", restrict(full[1], keys)]
+                    ctx.case((text, "longsel", len(sel), tuple(map(tuple, sel[:3]))), sample=lambda: dict(file_tracks=sorted(present), selection_length=len(sel), distinct=len({tuple(p) for p in sel})))
+                    ctx.evaluations += 1
+                    ctx.hist["selection_len_%d" % len(sel)] += 1
+                    for via in ("file", "file-tuple"):
+                        e1.check_outcome(ctx, "selection", text, [exp], via, sel, "file tracks %r%s, selection of %d entries (%d distinct)" % (sorted(present), " + an invalid [ExpertKeyboard]" if invalid else "", len(sel), len({tuple(p) for p in sel})))
     else:
         _, j, U = shard
         fm = (1 << U) - 1
